@@ -397,7 +397,9 @@ class Verdict:
         if not self.violations:
             return 0
         seen = set()
-        for payload, concrete in self.violations[:5]:
+        # concrete failing inputs first: they are the replays worth looking at
+        ordered = sorted(self.violations, key=lambda pc: 0 if pc[1] else 1)
+        for payload, concrete in ordered[:5]:
             payload = dict(payload)
             payload["property"] = self.cid
             payload["concrete_failing_input"] = bool(concrete)
